@@ -469,8 +469,18 @@ Fixpoint wf (e : expr) : bool :=
   | EProp _ | Cast _ _ | Generic _ _ => false
   end.
 
-(* every non-atomic operand in explicit parentheses ("fully parenthesised"); atoms stay bare *)
-Definition atomic (e : expr) : bool := match e with Num _ | Var _ => true | _ => false end.
+(* operands that `( ... )` would turn into a cast on the pinned tree (finding C02-paren-ident-cast):
+   x, x[1], x[i], x[1][j] ... *)
+Fixpoint typelike (e : expr) : bool :=
+  match e with
+  | Var _ => true
+  | Idx a i => typelike a && match i with Num _ | Var _ => true | _ => false end
+  | _ => false
+  end.
+
+(* every operand in explicit parentheses ("fully parenthesised"), except literals and the
+   type-like operands above, which stay bare *)
+Definition atomic (e : expr) : bool := match e with Num _ => true | _ => typelike e end.
 Definition wrap (e : expr) : expr := if atomic e then e else Par e.
 Fixpoint full (e : expr) : expr :=
   match e with
@@ -559,26 +569,43 @@ Definition eval_bin (o : binop) (x y : Z) : option Z :=
   | Mod => if Z.eqb y 0 then None else Some (Z.rem x y)
   end.
 
-(* value of a side-effect-free integer expression; None = outside the fragment, division by zero,
-   shift count outside 0..31, or an intermediate value outside the 32-bit range *)
-Fixpoint eval (env : nat -> Z) (e : expr) : option Z :=
-  let chk := fun (r : option Z) => match r with Some z => if in32 z then Some z else None | None => None end in
+(* value of a side-effect-free integer expression; [fn] interprets calls (the harness declares two
+   pure functions); None = outside the fragment, division by zero, shift count outside 0..31, or
+   an intermediate value outside the 32-bit range *)
+Definition chk32 (r : option Z) : option Z :=
+  match r with Some z => if in32 z then Some z else None | None => None end.
+
+Fixpoint eval_fn (fn : nat -> list Z -> option Z) (env : nat -> Z) (e : expr) : option Z :=
   match e with
-  | Num n => chk (Some (Z.of_N n))
-  | Var x => chk (Some (env x))
-  | Par a => eval env a
+  | Num n => chk32 (Some (Z.of_N n))
+  | Var x => chk32 (Some (env x))
+  | Par a => eval_fn fn env a
   | Bin o a b =>
-      match eval env a, eval env b with
-      | Some x, Some y => chk (eval_bin o x y)
+      match eval_fn fn env a, eval_fn fn env b with
+      | Some x, Some y => chk32 (eval_bin o x y)
       | _, _ => None
       end
-  | Un Not a => match eval env a with Some x => Some (b2z (Z.eqb x 0)) | None => None end
-  | Un Neg a => match eval env a with Some x => chk (Some (- x)%Z) | None => None end
-  | Un BNot a => match eval env a with Some x => chk (Some (Z.lnot x)) | None => None end
+  | Un Not a => match eval_fn fn env a with Some x => Some (b2z (Z.eqb x 0)) | None => None end
+  | Un Neg a => match eval_fn fn env a with Some x => chk32 (Some (- x)%Z) | None => None end
+  | Un BNot a => match eval_fn fn env a with Some x => chk32 (Some (Z.lnot x)) | None => None end
   | Tern c a b =>
-      match eval env c, eval env a, eval env b with
+      match eval_fn fn env c, eval_fn fn env a, eval_fn fn env b with
       | Some x, Some y, Some z => Some (if Z.eqb x 0 then z else y)
       | _, _, _ => None
       end
+  | Call f args =>
+      match (fix go (l : list expr) : option (list Z) :=
+               match l with
+               | [] => Some []
+               | a :: l' => match eval_fn fn env a, go l' with
+                            | Some x, Some xs => Some (x :: xs)
+                            | _, _ => None
+                            end
+               end) args with
+      | Some vs => chk32 (fn f vs)
+      | None => None
+      end
   | _ => None
   end.
+
+Definition eval (env : nat -> Z) (e : expr) : option Z := eval_fn (fun _ _ => None) env e.
